@@ -23,7 +23,7 @@ EP_ID = {
     "Base.tell": 36, "ES.tell": 37, "GAE.tell": 38, "GAE.tell_dqd": 39, "GOE.tell_dqd": 40,
     "Scheduler.tell": 41, "Scheduler.tell_dqd": 42, "Bandit.tell": 43,
     "Adam.ctor": 44, "Adam.reset": 45, "Adam.step": 46, "GradAscent.ctor": 47, "GradAscent.reset": 48, "GradAscent.step": 49,
-    "viz.parallel_axes_plot": 50, "viz.heatmap_df": 51,
+    "viz.parallel_axes_plot": 50, "viz.heatmap_df": 51, "Emitter.ask": 52,
 }
 
 
@@ -631,6 +631,69 @@ def ep_emitter_tell_dqd(case):
                lambda: emitter_digest(emitter, archive, cfg), variant=1 if cfg.get("normalize", 1) else 0)
 
 
+
+def ep_emitter_ask(case):
+    """emitter.ask() / ask_dqd(): no array arguments; what matters is what is handed out.  The follow-up (digest) evaluates the
+    solutions that were handed out (copied at call time), tells them back and keeps asking, so that an internal buffer that was
+    handed out gets updated by the emitter while the caller still holds it."""
+    cfg = case["cfg"]
+    em, which = cfg["emitter"], cfg.get("which", "ask")
+    dt = np.dtype(cfg["dtype"])
+    archive = _emitter_archive(cfg)
+    rng = random.Random(case["vseed"])
+    over = {}
+    if cfg.get("init") and em in ("gaussian", "isoline", "ga") and which == "ask":
+        over = {"initial_solutions": grid8(rng, (2, SOL), -1, 1).astype(dt), "x0": None}
+    emitter = make_emitter(em, archive, cfg, **over)
+    ev = (lambda n: {"ev": np.zeros((n, 2), dtype=dt)}) if cfg.get("extras") else (lambda n: {})
+    ones = lambda n: np.ones((n, MEAS + 1, SOL), dtype=dt)  # noqa
+
+    def dqd_round(s0):
+        if len(s0):
+            obj, meas = det_eval(s0, dt)
+            info = archive.add(s0.astype(dt), obj, meas, **ev(len(s0)))
+            emitter.tell_dqd(s0.astype(dt), obj, meas, ones(len(s0)), info, **ev(len(s0)))
+
+    with warnings.catch_warnings():
+        warnings.simplefilter("ignore")
+        if which == "ask" and em in ("gae", "goe"):
+            dqd_round(np.array(emitter.ask_dqd()))
+    held = {}
+
+    def call():
+        with warnings.catch_warnings():
+            warnings.simplefilter("ignore")
+            r = emitter.ask_dqd() if which == "ask_dqd" else emitter.ask()
+        held["sols"] = np.array(r)  # the values handed out, copied before anybody writes into r
+        return r
+
+    def digest():
+        stored = [guarded(lambda: archive.data())]  # stored contents right now
+        out = []
+        s0 = held.get("sols")
+        with warnings.catch_warnings():
+            warnings.simplefilter("ignore")
+            if s0 is not None and len(s0):
+                if which == "ask_dqd":
+                    out.append(("tell_dqd", guarded(lambda: dqd_round(s0))))
+                    out.append(("ask", guarded(emitter.ask)))
+                else:
+                    obj, meas = det_eval(s0, dt)
+
+                    def step():
+                        info = archive.add(s0.astype(dt), obj, meas, **ev(len(s0)))
+                        emitter.tell(s0.astype(dt), obj, meas, info, **ev(len(s0)))
+                    out.append(("tell", guarded(step)))
+        d = emitter_digest(emitter, archive, cfg)
+        # everything after the first read goes through the emitter's own state: reported separately from the stored contents
+        return {"stored": stored, "extra": out + d["stored"] + d["extra"]}
+    if which == "ask_dqd":
+        variant = {"goe": 2, "gae": 3}.get(em, 0)
+    else:
+        variant = 1 if em in ("es", "gae") else 0
+    return Ctx("Emitter.ask", {"emitter": emitter, "archive": archive}, [], call, digest, variant=variant)
+
+
 # ---------------------------------------------------------------------------------------------
 # schedulers
 def scheduler_digest(sched, cfg, dqd):
@@ -813,7 +876,7 @@ BUILDERS = {
     "Archive.index_of_single": lambda c: ep_archive_index_of(c, True),
     "CVT.ctor_centroids": lambda c: ep_cvt_ctor(c, "centroids"), "CVT.ctor_samples": lambda c: ep_cvt_ctor(c, "samples"),
     "Grid.ctor": ep_grid_ctor, "Archive.cqd_score": ep_cqd, "Proximity.compute_novelty": ep_novelty,
-    "Emitter.ctor": ep_emitter_ctor, "Emitter.tell": ep_emitter_tell, "Emitter.tell_dqd": ep_emitter_tell_dqd,
+    "Emitter.ask": ep_emitter_ask, "Emitter.ctor": ep_emitter_ctor, "Emitter.tell": ep_emitter_tell, "Emitter.tell_dqd": ep_emitter_tell_dqd,
     "Scheduler.tell": ep_scheduler_tell, "Scheduler.tell_dqd": lambda c: ep_scheduler_tell(c, dqd=True),
     "Bandit.tell": lambda c: ep_scheduler_tell(c, bandit=True),
     "viz": lambda c: ep_viz(c, c["cfg"]["which"]),
